@@ -2,6 +2,7 @@
 package c06
 
 import (
+	"bytes"
 	"context"
 	"errors"
 	"fmt"
@@ -34,6 +35,7 @@ type caseSpec struct {
 	TickUs            int    // OnTick interval; TickBusyUs: time spent inside OnTick
 	TickBusyUs        int
 	DelayUs           int    // between activity start and the shutdown request
+	WerrBy            string // OnClose+writeerr source: the call that fails - write, writev, flush
 	WakeCallback      bool   // Wake source: the request carries a callback (that returns nil)
 	Backlog           int    // async requests queued behind a busy loop right before the request (Wake/OnTick sources)
 	CloseSaysShutdown bool   // every OnClose returns Shutdown (also those invoked by the shutdown sweep itself)
@@ -41,8 +43,8 @@ type caseSpec struct {
 }
 
 func (c caseSpec) String() string {
-	return fmt.Sprintf("cfg: %s\n source=%s idle=%d streams=%d pending=%d dialers=%d asyncers=%d tick=%dus busy=%dus delay=%dus backlog=%d onCloseReturnsShutdown=%v onCloseClosesPartner=%v wakeWithCallback=%v",
-		c.Cfg, c.Source, c.Idle, c.Streams, c.Pending, c.Dialers, c.Asyncers, c.TickUs, c.TickBusyUs, c.DelayUs, c.Backlog, c.CloseSaysShutdown, c.ClosePartner, c.WakeCallback)
+	return fmt.Sprintf("cfg: %s\n source=%s idle=%d streams=%d pending=%d dialers=%d asyncers=%d tick=%dus busy=%dus delay=%dus backlog=%d onCloseReturnsShutdown=%v onCloseClosesPartner=%v wakeWithCallback=%v failingWriteBy=%s",
+		c.Cfg, c.Source, c.Idle, c.Streams, c.Pending, c.Dialers, c.Asyncers, c.TickUs, c.TickBusyUs, c.DelayUs, c.Backlog, c.CloseSaysShutdown, c.ClosePartner, c.WakeCallback, c.WerrBy)
 }
 
 type session struct {
@@ -130,7 +132,18 @@ func (c *cstate) OnTraffic(gc gnet.Conn) gnet.Action {
 		// the peer has reset the connection meanwhile: a write fails, and the connection is closed from inside it
 		junk := make([]byte, 64<<10)
 		for i := 0; i < 200; i++ {
-			if _, err := gc.Write(junk); err != nil {
+			var err error
+			switch c.s.cs.WerrBy {
+			case "writev":
+				_, err = gc.Writev([][]byte{junk[:1000], junk[1000:]})
+			case "flush":
+				if _, err = gc.ReadFrom(bytes.NewReader(junk)); err == nil {
+					err = gc.Flush()
+				}
+			default:
+				_, err = gc.Write(junk)
+			}
+			if err != nil {
 				break
 			}
 		}
@@ -620,6 +633,9 @@ func drawCase(t *rapid.T) caseSpec {
 	cs.DelayUs = rapid.SampledFrom([]int{0, 100, 1000, 5000}).Draw(t, "delayUs")
 	if cs.Source == "Wake" {
 		cs.WakeCallback = rapid.Bool().Draw(t, "wakeCallback")
+	}
+	if cs.Source == "OnClose+writeerr" {
+		cs.WerrBy = rapid.SampledFrom([]string{"write", "writev", "writev", "flush"}).Draw(t, "failingWriteBy")
 	}
 	if (cs.Source == "Wake" || cs.Source == "OnTick") && rapid.IntRange(0, 2).Draw(t, "backlog") == 0 {
 		cs.Backlog = rapid.SampledFrom([]int{100, 1023, 1024, 1100, 1500}).Draw(t, "backlogN")
